@@ -13,6 +13,7 @@ import TerwayModel.Driver.Pool
 import TerwayModel.Driver.Ipam
 import TerwayModel.Driver.PodEni
 import TerwayModel.Driver.StoredRec
+import TerwayModel.Driver.Agent
 /-
 `drv`: reads one operation per line (`<model>.<op> arg…`), prints one canonical line per input.
 Malformed or unknown lines print `bad-op` — never a default value.
@@ -26,6 +27,7 @@ structure St where
   dm : DaemonD.St := DaemonD.St.init
   pl : PoolD.St := {}
   pe : PodEniD.St := {}
+  ag : Terway.Agent.St := {}
 
 def dispatch (st : St) (line : String) : St × String :=
   match words line with
@@ -47,6 +49,10 @@ def dispatch (st : St) (line : String) : St × String :=
     | ["cfg", op] => (st, (JsonD.step op args).getD "bad-op")
     | ["cni", op] => (st, (JsonD.chainStep op args).getD "bad-op")
     | ["ip", op] => (st, (IpamD.step op args).getD "bad-op")
+    | ["rt", op] =>
+      match AgentD.step st.ag op args with
+      | some (t, o) => ({ st with ag := t }, o)
+      | none => (st, "bad-op")
     | ["pe", op] =>
       match PodEniD.step st.pe op args with
       | some (t, o) => ({ st with pe := t }, o)
